@@ -13,9 +13,25 @@ pub const POISON: u8 = 0xDD;
 /// Padding placed in front of and behind every allocation in the process. It only depends on the
 /// layout, so `dealloc` can recompute it without any bookkeeping.
 #[inline]
+/// Back red zone. Miri tracks provenance per allocation: no red zones there (Miri checks bounds itself).
 fn pad_for(layout: Layout) -> usize {
-    // Miri tracks provenance per allocation: no red zones there (Miri checks bounds itself)
     if cfg!(miri) { 0 } else { layout.align().max(32) }
+}
+
+/// Front red zone. The underlying block is aligned to twice the requested alignment and the user
+/// pointer sits an odd multiple of the requested alignment into it, so every block is aligned exactly
+/// as requested and no better: code that relies on the system allocator's habitual over-alignment
+/// (16 on this platform) gets a visibly misaligned address.
+fn front_for(layout: Layout) -> usize {
+    if cfg!(miri) { 0 } else { (2 * layout.align()).max(32) + layout.align() }
+}
+
+fn raw_layout_for(layout: Layout) -> Option<Layout> {
+    if cfg!(miri) {
+        return Some(layout);
+    }
+    let total = layout.size().checked_add(front_for(layout))?.checked_add(pad_for(layout))?;
+    Layout::from_size_align(total, layout.align().checked_mul(2)?).ok()
 }
 
 #[derive(Clone, Copy, Debug, PartialEq, Eq)]
@@ -135,21 +151,19 @@ fn tracking_active() -> bool {
 unsafe impl GlobalAlloc for TrackAlloc {
     unsafe fn alloc(&self, layout: Layout) -> *mut u8 {
         let pad = pad_for(layout);
-        let Some(total) = layout.size().checked_add(2 * pad) else {
-            return std::ptr::null_mut();
-        };
-        let Ok(raw_layout) = Layout::from_size_align(total, layout.align()) else {
+        let front = front_for(layout);
+        let Some(raw_layout) = raw_layout_for(layout) else {
             return std::ptr::null_mut();
         };
         let raw = unsafe { System.alloc(raw_layout) };
         if raw.is_null() {
             return raw;
         }
-        let user = unsafe { raw.add(pad) };
+        let user = unsafe { raw.add(front) };
         if tracking_active() && !PAUSE.try_with(|p| p.get()).unwrap_or(true) {
             let _g = GuardOn::new();
             unsafe {
-                std::ptr::write_bytes(raw, CANARY, pad);
+                std::ptr::write_bytes(raw, CANARY, front);
                 std::ptr::write_bytes(user.add(layout.size()), CANARY, pad);
             }
             let _ = STATE.try_with(|s| {
@@ -203,14 +217,17 @@ unsafe impl GlobalAlloc for TrackAlloc {
                         });
                     }
                     let pad = pad_for(true_layout);
-                    let raw = unsafe { ptr.sub(pad) };
+                    let front = front_for(true_layout);
+                    let raw = unsafe { ptr.sub(front) };
                     // red zones
                     let (mut front_ok, mut back_ok) = (true, true);
                     unsafe {
-                        for i in 0..pad {
+                        for i in 0..front {
                             if *raw.add(i) != CANARY {
                                 front_ok = false;
                             }
+                        }
+                        for i in 0..pad {
                             if *ptr.add(b.size + i) != CANARY {
                                 back_ok = false;
                             }
@@ -223,7 +240,7 @@ unsafe impl GlobalAlloc for TrackAlloc {
                         s.faults.push(AllocFault::RedZone { block: addr, front: false, watched: b.watched });
                     }
                     s.n_free += 1;
-                    let raw_layout = Layout::from_size_align(b.size + 2 * pad, b.align).unwrap();
+                    let raw_layout = raw_layout_for(true_layout).unwrap();
                     if b.watched && (cfg!(miri) || !QUARANTINE.try_with(|q| q.get()).unwrap_or(true)) {
                         // under Miri the block is really freed, so that Miri itself reports any
                         // later access; the event is recorded all the same
@@ -257,9 +274,8 @@ unsafe impl GlobalAlloc for TrackAlloc {
                 return;
             }
         }
-        let pad = pad_for(layout);
-        let raw_layout = unsafe { Layout::from_size_align_unchecked(layout.size() + 2 * pad, layout.align()) };
-        unsafe { System.dealloc(ptr.sub(pad), raw_layout) };
+        let raw_layout = raw_layout_for(layout).unwrap();
+        unsafe { System.dealloc(ptr.sub(front_for(layout)), raw_layout) };
     }
 }
 
@@ -312,16 +328,20 @@ pub fn end_case() -> CaseEnd {
             }
             if !b.released && b.watched {
                 // check red zones of outstanding blocks
-                let pad = if cfg!(miri) { 0 } else { b.align.max(32) };
+                let lay = Layout::from_size_align(b.size, b.align).unwrap();
+                let pad = pad_for(lay);
+                let front = front_for(lay);
                 let ptr = *addr as *const u8;
                 unsafe {
-                    let raw = ptr.sub(pad);
+                    let raw = ptr.sub(front);
                     let mut f_ok = true;
                     let mut b_ok = true;
-                    for i in 0..pad {
+                    for i in 0..front {
                         if *raw.add(i) != CANARY {
                             f_ok = false;
                         }
+                    }
+                    for i in 0..pad {
                         if *ptr.add(b.size + i) != CANARY {
                             b_ok = false;
                         }
@@ -487,6 +507,41 @@ pub fn trace_fuse() -> u32 {
 pub const TRACE_PANIC: &str = "gcverif: injected trace panic";
 pub const CALLBACK_PANIC: &str = "gcverif: injected callback panic";
 pub const CTOR_PANIC: &str = "gcverif: injected element constructor panic";
+pub const DROP_PANIC: &str = "gcverif: injected destructor panic";
+
+thread_local! {
+    static DROP_FUSE: Cell<u32> = const { Cell::new(0) };
+    static DROP_FUSE_HIT: Cell<Option<u32>> = const { Cell::new(None) };
+}
+
+/// The k-th token destructed from now on panics (once; never while the thread is already unwinding).
+pub fn arm_drop_fuse(k: u32) {
+    DROP_FUSE.with(|f| f.set(k));
+    DROP_FUSE_HIT.with(|f| f.set(None));
+}
+
+/// Disarm; returns the id of the object whose destructor panicked, if the fuse fired.
+pub fn disarm_drop_fuse() -> Option<u32> {
+    DROP_FUSE.with(|f| f.set(0));
+    DROP_FUSE_HIT.with(|f| f.take())
+}
+
+/// Called by `Tok::drop` after the destruction has been logged.
+pub fn on_tok_drop(id: u32) {
+    let fire = DROP_FUSE.try_with(|f| {
+        let v = f.get();
+        if v == 0 {
+            false
+        } else {
+            f.set(v - 1);
+            v == 1
+        }
+    });
+    if fire == Ok(true) && !std::thread::panicking() {
+        DROP_FUSE_HIT.with(|f| f.set(Some(id)));
+        std::panic::panic_any(DROP_PANIC);
+    }
+}
 
 /// Called by `Probe::trace`.
 pub fn on_probe_trace(arena: u8, id: u32) {
